@@ -292,6 +292,31 @@ pub fn enumerate(thorough: bool, part: usize, parts: usize, sink: &mut EnumSink)
             sink.stats.exhaustive_spaces.push("str_lt / str_le on all pairs of strings of length <= 2 over {0, a, 0x161, 0xD800, 0xDFFF, 0xE000, 0xFFFD, 0xFFFF, 0x10000, MAX} (with every third string of length <= 1)".to_string());
         }
     }
+    // very long strings that agree on a long prefix (comparison loops written recursively, block-wise or
+    // with 16-bit indices), on a user-sized stack
+    if part == parts - 1 {
+        for &len in &[70_000usize, 2_000_000] {
+            let mut o = Outcome::default();
+            let base: Vec<u32> = (0..len).map(|i| 0x61 + (i % 3) as u32).collect();
+            let mut longer = base.clone();
+            longer.push(0);
+            let mut bigger = base.clone();
+            *bigger.last_mut().unwrap() = 0x2FFFF;
+            let (sa, sl, sb) = (smt(&base), smt(&longer), smt(&bigger));
+            let got = crate::runner::on_user_stack(|| crate::runner::catch(|| [str_lt(&sa, &sa), str_le(&sa, &sa), str_lt(&sa, &sl), str_le(&sl, &sa), str_lt(&sa, &sb), str_lt(&sb, &sa), str_le(&sb, &sl), str_lt(&sl, &sb)]));
+            o.evals += 8;
+            match got {
+                Ok(v) => {
+                    if v != [false, true, true, false, true, false, false, true] {
+                        o.fail("C09/str_lt", format!("strings of {} characters with a common prefix of {}: [s<s, s<=s, s<s.0, s.0<=s, s<t, t<s, t<=s.0, s.0<t] = {:?}", len, len - 1, v));
+                    }
+                }
+                Err(msg) => o.fail("C09/panics", format!("comparison of strings of {} characters panicked: {}", len, msg)),
+            }
+            sink.case(&o, true, || format!("order on strings of {} characters with a common prefix", len));
+        }
+        sink.stats.exhaustive_spaces.push("str_lt / str_le on strings of 70 000 and 2 000 000 characters that are equal, differ in the last character, or are a proper prefix of each other".to_string());
+    }
     // windows of values around the i32 / u32 boundaries, with 0..2 leading zeros and a trailing digit
     let centers: [u64; 8] = [2147483647, 4294967296, 21474836470, 42949672960, 6442450944, 8589934592, 214748364700, 10000000000];
     let w: u64 = if thorough { 20000 } else { 2000 };
